@@ -81,11 +81,11 @@ Proof. exact if_false_no_else. Qed.
 Print Assumptions C09_if_missing_else_is_null.
 
 Example C09_example :
-  let s := mkState [] (VObj []) (VObj []) in
+  let s := st0 [] (VObj []) (VObj []) in
   let mark k := EAssign (TExt PEvent [SField (hx k)]) (ELit (VBool true)) in
-  run F_inst binop_inst
+  run_core
     [EOp OOr (ELit (VInt 5)) (mark "61");
      EOp OAnd (ELit VNull) (mark "62");
      EIf [ELit (VBool false)] [mark "63"] None] s
-  = (Success VNull, s).
+  = (Success VNull, [], VObj [], VObj []).
 Proof. vm_compute. reflexivity. Qed.
